@@ -66,6 +66,14 @@ class Explorer:
             return env[k]
         if isinstance(e, ast.Constant):
             return e.value
+        if isinstance(e, ast.Attribute) and k is not None and "." in k:
+            # symbolic constant of an imported module (signal.SIGTERM, errno.ESRCH, ...)
+            root = e
+            while isinstance(root, ast.Attribute):
+                root = root.value
+            if isinstance(root, ast.Name) and root.id in self.func.module.imports and root.id not in self.func.locals \
+                    and not k.startswith("gunicorn."):
+                return "@" + k
         if isinstance(e, (ast.Tuple, ast.List)):
             vals = [self.ev(x, env) for x in e.elts]
             if any(v is UNKNOWN for v in vals):
